@@ -100,6 +100,14 @@ func (w *World) ApplyAPI(call string) error {
 		if err := w.Mgr.AddPcapProcessorWebhook(arg); err != nil {
 			res = "error: " + err.Error()
 		}
+	case "endpoint":
+		if err := w.Mgr.AddPcapOverIPEndpoint(arg); err != nil {
+			res = "error: " + err.Error()
+		}
+	case "endpoint.del":
+		if err := w.Mgr.DelPcapOverIPEndpoint(arg); err != nil {
+			res = "error: " + err.Error()
+		}
 	case "view.open":
 		v := w.Mgr.GetView()
 		hv := &HeldView{Name: arg, View: &v, OpenedAt: len(w.Events)}
